@@ -6,11 +6,17 @@
 // page index, in sync or async read mode.  Histories of operations
 // (ReadPage/ReadRows, SeekToRow, loading the offset index, Reset) are run on
 // ColumnChunk.Pages(), RowGroup.Rows(), parquet.NewReader and
-// parquet.NewGenericReader.  The property predicate is evaluated directly on
+// parquet.NewGenericReader, and on the column pages and the rows of
+// parquet.MultiRowGroup over all the row groups.  The property predicate is evaluated directly on
 // what the implementation returns (it tracks one row position: after
 // SeekToRow(k) the rows returned must be k, k+1, ... and errors only happen
 // where a fresh sequential reader is at the end), and the per-operation
-// outputs are compared with the extracted Coq model (Cursor/Model.v).
+// outputs (exact first row and count of every page / batch, io.EOF flags) are
+// compared with the extracted Coq models: the page cursor (Cursor/Model.v), and
+// on top of it the multi-column rowGroupRows over the page layouts of all five
+// columns, multiPages, reader/Reader/GenericReader (Cursor/Multi.v) and, in
+// async read mode, asyncPages under schedules drawn by the model
+// (Cursor/AsyncPages.v).
 package main
 
 import (
@@ -154,12 +160,12 @@ type c08Open struct {
 
 // c08Case is a replayable case: how the file is made and opened, which reader
 // is exercised and the history.  Ops: "r" ReadPage, "r<n>" ReadRows/Read of n
-// rows, "s<k>" SeekToRow(k), "l" load the offset index (ColumnChunk.OffsetIndex),
-// "x" Reset.
+// rows, "g" Reader.Read of one row, "s<k>" SeekToRow(k), "l" load the offset
+// index (ColumnChunk.OffsetIndex), "x" Reset.
 type c08Case struct {
 	File   c08FileParams `json:"file"`
 	Open   c08Open       `json:"open"`
-	Target string        `json:"target"` // pages | rows | reader | generic
+	Target string        `json:"target"` // pages | rows | reader | generic | multipages | multirows
 	RG     int           `json:"row_group"`
 	Col    int           `json:"column"`
 	Ops    []string      `json:"ops"`
@@ -372,13 +378,12 @@ func c08PageValues(pg parquet.Page) ([]parquet.Value, error) {
 	return vals[:n], nil
 }
 
-func c08RunPages(b *c08Built, f *parquet.File, cs *c08Case, res *c08Result) {
-	rg := f.RowGroups()[cs.RG]
-	cc := rg.ColumnChunks()[cs.Col]
+// c08RunPages runs a history on the pages of a column chunk: a chunk of a row
+// group of the file (N rows, the first one is row off of the file) or the
+// column of the MultiRowGroup over all row groups.
+func c08RunPages(cc parquet.ColumnChunk, N, off int64, cs *c08Case, res *c08Result) {
 	pages := cc.Pages()
 	defer pages.Close()
-	N := b.rgRows[cs.RG]
-	off := b.rgOff[cs.RG]
 	pos := int64(0)
 	for i, op := range cs.Ops {
 		code, arg := c08ParseOp(op)
@@ -455,6 +460,7 @@ func c08RunPages(b *c08Built, f *parquet.File, cs *c08Case, res *c08Result) {
 // c08RowsTarget abstracts RowGroup.Rows(), Reader and GenericReader.
 type c08RowsTarget interface {
 	read(n int, first int64) (cnt int, err error, bad string)
+	read1(first int64) (cnt int, err error, bad string, ok bool)
 	seek(k int64) error
 	reset() bool
 	close()
@@ -505,6 +511,22 @@ func (t *c08RowReader) read(n int, first int64) (int, error, string) {
 	}
 	return cnt, err, ""
 }
+
+// read1 is Reader.Read: one row into a Go value.
+func (t *c08RowReader) read1(first int64) (int, error, string, bool) {
+	r, ok := t.r.(*parquet.Reader)
+	if !ok {
+		return 0, nil, "", false
+	}
+	var row c08Row
+	if err := r.Read(&row); err != nil {
+		return 0, err, "", true
+	}
+	if bad := c08CheckGoRow(&row, t.off+first); bad != "" {
+		return 1, nil, bad, true
+	}
+	return 1, nil, "", true
+}
 func (t *c08RowReader) seek(k int64) error { return t.r.SeekToRow(k) }
 func (t *c08RowReader) reset() bool {
 	if r, ok := t.r.(interface{ Reset() }); ok {
@@ -533,24 +555,48 @@ func (t *c08GenericReader) read(n int, first int64) (int, error, string) {
 		return cnt, err, fmt.Sprintf("Read returned %d for %d rows", cnt, n)
 	}
 	for j := 0; j < cnt; j++ {
-		want := c08MakeRow(first + int64(j))
-		got := rows[j]
-		ok := got.ID == want.ID && got.S == want.S && (got.Opt == nil) == (want.Opt == nil) && len(got.List) == len(want.List)
-		if ok && got.Opt != nil && *got.Opt != *want.Opt {
-			ok = false
-		}
-		if ok {
-			for x := range want.List {
-				if got.List[x] != want.List[x] {
-					ok = false
-				}
-			}
-		}
-		if !ok {
-			return cnt, err, fmt.Sprintf("row %d of the batch: expected row %d, got id=%d s=%q list=%v", j, want.ID, got.ID, got.S, got.List)
+		if bad := c08CheckGoRow(&rows[j], first+int64(j)); bad != "" {
+			return cnt, err, fmt.Sprintf("row %d of the batch: %s", j, bad)
 		}
 	}
 	return cnt, err, ""
+}
+func (t *c08GenericReader) read1(int64) (int, error, string, bool) { return 0, nil, "", false }
+
+// c08CheckGoRow compares a reconstructed row with row r of the file, every
+// column included.
+func c08CheckGoRow(got *c08Row, r int64) string {
+	want := c08MakeRow(r)
+	ok := got.ID == want.ID && got.S == want.S && (got.Opt == nil) == (want.Opt == nil) && len(got.List) == len(want.List)
+	if ok && got.Opt != nil && *got.Opt != *want.Opt {
+		ok = false
+	}
+	if ok {
+		for x := range want.List {
+			if got.List[x] != want.List[x] {
+				ok = false
+			}
+		}
+	}
+	if ok && (got.G == nil) != (want.G == nil) {
+		ok = false
+	}
+	if ok && got.G != nil {
+		if (got.G.V == nil) != (want.G.V == nil) || (got.G.V != nil && *got.G.V != *want.G.V) {
+			ok = false
+		}
+	}
+	if !ok {
+		g := "nil"
+		if got.G != nil {
+			g = "{nil}"
+			if got.G.V != nil {
+				g = fmt.Sprintf("{%d}", *got.G.V)
+			}
+		}
+		return fmt.Sprintf("expected row %d, got id=%d s=%q list=%v zg=%s", want.ID, got.ID, got.S, got.List, g)
+	}
+	return ""
 }
 func (t *c08GenericReader) seek(k int64) error { return t.r.SeekToRow(k) }
 func (t *c08GenericReader) reset() bool         { t.r.Reset(); return true }
@@ -589,6 +635,33 @@ func c08RunRows(t c08RowsTarget, N int64, cs *c08Case, res *c08Result) {
 				res.fail("no-progress", "op %d read of %d rows at row %d of %d returned 0 rows and no error", i, arg, pos, N)
 			case cnt > 0 && pos+int64(cnt) > N:
 				res.fail("wrong-rows", "op %d read of %d rows at row %d of %d returned %d rows", i, arg, pos, N, cnt)
+			}
+			pos += int64(cnt)
+		case code == 'g':
+			cnt, err, bad, ok := t.read1(pos)
+			if !ok {
+				res.outs = append(res.outs, "?")
+				res.fail("bad-op", "the reader has no Read(row) method")
+				continue
+			}
+			e := c08Err(err)
+			switch {
+			case bad != "":
+				res.outs = append(res.outs, "i?1/0")
+				res.fail("wrong-rows", "op %d Read at row %d: %s", i, pos, bad)
+			case cnt == 1:
+				res.outs = append(res.outs, fmt.Sprintf("i%x.1/0", pos))
+				if pos >= N {
+					res.fail("wrong-rows", "op %d Read at row %d of %d returned a row", i, pos, N)
+				}
+			case e == "e":
+				res.outs = append(res.outs, "i/1")
+				if pos < N {
+					res.fail("early-eof", "op %d Read at row %d of %d returned io.EOF", i, pos, N)
+				}
+			default:
+				res.outs = append(res.outs, "i/"+e)
+				res.fail("error", "op %d Read at row %d of %d: unexpected error %v", i, pos, N, err)
 			}
 			pos += int64(cnt)
 		case code == 's':
@@ -638,7 +711,23 @@ func c08Exec(cs *c08Case) (res *c08Result, b *c08Built) {
 				res.fail("bad-op", "no such row group / column")
 				return
 			}
-			c08RunPages(b, f, cs, res)
+			c08RunPages(f.RowGroups()[cs.RG].ColumnChunks()[cs.Col], b.rgRows[cs.RG], b.rgOff[cs.RG], cs, res)
+		case "multipages":
+			// the column of the MultiRowGroup over all row groups: multiPages
+			if len(b.rgRows) < 2 || cs.Col >= c08NumCols {
+				res.fail("bad-op", "multipages needs at least two row groups")
+				return
+			}
+			mrg := parquet.MultiRowGroup(f.RowGroups()...)
+			c08RunPages(mrg.ColumnChunks()[cs.Col], b.total, 0, cs, res)
+		case "multirows":
+			if len(b.rgRows) < 2 {
+				res.fail("bad-op", "multirows needs at least two row groups")
+				return
+			}
+			mrg := parquet.MultiRowGroup(f.RowGroups()...)
+			t := &c08RowReader{r: mrg.Rows()}
+			c08RunRows(t, b.total, cs, res)
 		case "rows":
 			if cs.RG >= len(b.rgRows) {
 				res.fail("bad-op", "no such row group")
@@ -699,26 +788,98 @@ func c08OpsTok(ops []string) string {
 	return strings.Join(parts, ",")
 }
 
-// c08Request is the oracle request that models the case (the faithful model of
-// the current code for page and row-group readers, the position specification
-// for the file readers, whose extra layers are not modelled).
+// c08ColsOfRG: the page layout of every column chunk of a row group ("/" between columns).
+func c08ColsOfRG(b *c08Built, g int) string {
+	parts := make([]string, c08NumCols)
+	for c := range parts {
+		parts[c] = c08Hex(b.layout[g][c])
+	}
+	return strings.Join(parts, "/")
+}
+
+// c08ChunksOfCol: the page layout of the chunk of a column in every row group (";" between row groups).
+func c08ChunksOfCol(b *c08Built, col int) string {
+	parts := make([]string, len(b.layout))
+	for g := range parts {
+		parts[g] = c08Hex(b.layout[g][col])
+	}
+	return strings.Join(parts, ";")
+}
+
+// c08ColsOfFile: every column ("/") with its chunk in every row group (";").
+func c08ColsOfFile(b *c08Built) string {
+	parts := make([]string, c08NumCols)
+	for c := range parts {
+		parts[c] = c08ChunksOfCol(b, c)
+	}
+	return strings.Join(parts, "/")
+}
+
+// c08Request is the oracle request that models the case: the faithful model of
+// the current code for every target (page cursor; rowGroupRows over the five
+// column cursors; multiPages; reader/Reader/GenericReader over the row groups).
 func c08Request(cs *c08Case, b *c08Built) string {
+	m := "idx"
+	if cs.Open.SkipIndex {
+		m = "noidx"
+	}
 	switch cs.Target {
 	case "pages":
-		m := "idx"
 		if cs.Open.SkipIndex {
 			m = "lazy"
 		}
 		return "c08.pages " + m + " " + c08Hex(b.layout[cs.RG][cs.Col]) + " " + c08OpsTok(cs.Ops)
+	case "multipages":
+		return "c08.mpages " + m + " " + c08ChunksOfCol(b, cs.Col) + " " + c08OpsTok(cs.Ops)
 	case "rows":
-		m := "idx"
-		if cs.Open.SkipIndex {
-			m = "noidx"
-		}
-		return "c08.rows " + m + " " + c08Hex(b.layout[cs.RG][0]) + " " + c08OpsTok(cs.Ops)
+		return "c08.mrows " + m + " " + c08ColsOfRG(b, cs.RG) + " " + c08OpsTok(cs.Ops)
+	case "multirows":
+		return "c08.mgrows " + m + " " + c08ColsOfFile(b) + " " + c08OpsTok(cs.Ops)
 	default:
-		return "c08.rows spec " + c08Hex([]int64{b.total}) + " " + c08OpsTok(cs.Ops)
+		// a file with one row group is read through the row group itself
+		if len(b.rgRows) == 1 {
+			m += "1"
+		}
+		ops := c08OpsTok(cs.Ops)
+		if cs.Target == "generic" {
+			// GenericReader.Read
+			ops = strings.ReplaceAll(","+ops, ",r", ",G")[1:]
+		}
+		return "c08.reader " + m + " " + c08ColsOfFile(b) + " " + ops
 	}
+}
+
+// c08SpecRequest: the row-position specification of the case (what the theorems
+// say the model request above returns).
+func c08SpecRequest(cs *c08Case, b *c08Built) string {
+	switch cs.Target {
+	case "multipages":
+		return "c08.mpages spec " + c08ChunksOfCol(b, cs.Col) + " " + c08OpsTok(cs.Ops)
+	case "rows":
+		if cs.Open.SkipIndex {
+			return ""
+		}
+		return "c08.mrows spec " + c08ColsOfRG(b, cs.RG) + " " + c08OpsTok(cs.Ops)
+	case "multirows":
+		return "c08.mgrows spec " + c08ColsOfFile(b) + " " + c08OpsTok(cs.Ops)
+	case "reader", "generic":
+		ops := c08OpsTok(cs.Ops)
+		if cs.Target == "generic" {
+			ops = strings.ReplaceAll(","+ops, ",r", ",G")[1:]
+		}
+		return "c08.reader spec " + c08ColsOfFile(b) + " " + ops
+	}
+	return ""
+}
+
+// c08AsyncRequest: asyncPages over the page cursor under a schedule that the
+// model draws from the seed (pages target, async read mode, no lazy index).
+func c08AsyncRequest(cs *c08Case, b *c08Built, seed int) string {
+	m := "idx"
+	if cs.Open.SkipIndex {
+		m = "noidx"
+	}
+	return fmt.Sprintf("c08.async %s %s %s %x %x", m, c08Hex(b.layout[cs.RG][cs.Col]), c08OpsTok(cs.Ops), seed, 64*len(cs.Ops)+256)
 }
 
 func c08Has(ops []string, op string) bool {
@@ -771,9 +932,29 @@ func c08Check(c *core.Ctx, cs *c08Case) string {
 			c.Mismatch("corr:C08."+cs.Target, req, got, want, cs)
 			return "corr"
 		}
+		// a sample of the cases is also compared with the specification the
+		// theorems relate the model to
+		c08Checked++
+		if sreq := c08SpecRequest(cs, b); sreq != "" && c08Checked%16 == 0 {
+			if spec := c.Ask(sreq); spec != got {
+				c.Mismatch("corr:C08."+cs.Target+".spec", sreq, got, spec, cs)
+				return "corr"
+			}
+		}
+		if cs.Target == "pages" && cs.Open.Async && len(cs.Ops) > 0 && !c08Has(cs.Ops, "l") {
+			for seed := 1; seed <= 2; seed++ {
+				areq := c08AsyncRequest(cs, b, seed+7*c08Checked)
+				if ans := c.Ask(areq); ans != got+"/1" {
+					c.Mismatch("corr:C08.async", areq, got, ans, cs)
+					return "corr"
+				}
+			}
+		}
 	}
 	return ""
 }
+
+var c08Checked int
 
 var c08Reported = map[string]int{}
 
@@ -926,6 +1107,51 @@ func c08CoqOuts(outs []string) (string, bool) {
 	return core.CoqList(parts), true
 }
 
+// c08CoqROps: a history of a row reader in Coq syntax.
+func c08CoqROps(ops []string, read, seek, reset string) string {
+	var parts []string
+	for _, op := range ops {
+		code, arg := c08ParseOp(op)
+		switch {
+		case code == 'r' && arg >= 0:
+			parts = append(parts, fmt.Sprintf("%s %d", read, arg))
+		case code == 's':
+			parts = append(parts, fmt.Sprintf("%s %d", seek, arg))
+		case code == 'x':
+			parts = append(parts, reset)
+		}
+	}
+	return core.CoqList(parts)
+}
+
+// c08CoqMOuts: canonical outputs of a row reader as a list of mout (every
+// assembled row holds its row number once per column).
+func c08CoqMOuts(outs []string) (string, bool) {
+	var parts []string
+	for _, o := range outs {
+		switch {
+		case o == "k":
+			parts = append(parts, "MSeekOk")
+		case o == "o":
+			parts = append(parts, "MOutOfRange")
+		case o == "d":
+			parts = append(parts, "MDone")
+		case strings.HasPrefix(o, "i/"):
+			parts = append(parts, fmt.Sprintf("MRows [] %v", o == "i/1"))
+		case strings.HasPrefix(o, "i") && !strings.HasPrefix(o, "i?"):
+			var f, n int64
+			var e int
+			if _, err := fmt.Sscanf(o, "i%x.%x/%d", &f, &n, &e); err != nil {
+				return "", false
+			}
+			parts = append(parts, fmt.Sprintf("MRows (widen %d (seq %d %d)) %v", c08NumCols, f, n, e == 1))
+		default:
+			return "", false
+		}
+	}
+	return core.CoqList(parts), true
+}
+
 func c08CoqNats(xs []int64) string {
 	parts := make([]string, len(xs))
 	for i, x := range xs {
@@ -935,9 +1161,45 @@ func c08CoqNats(xs []int64) string {
 }
 
 func runC08(c *core.Ctx) {
-	c.Res.Rule = "files of rows (id, optional, list, dictionary string; every value identifies its row) written with small pages (PageBufferSize 16..96), 1..4 row groups, data pages v1 and v2; opened with/without SkipPageIndex, sync/async. Histories over {ReadPage | ReadRows(n in 1,3,64,1000), SeekToRow(k: 0, page and row-group boundaries +-1, N-1, N, N+3, random), load the offset index, Reset}: a corpus (the repaired defect first), ALL histories of length 4 (quick) / 5 (thorough) over a 9..11 letter alphabet on a 22-row file, random histories up to length 40 on 300-row files; run on ColumnChunk.Pages (every column), RowGroup.Rows, NewReader, NewGenericReader. A case = (file, open options, reader, history); non-trivial = at least 2 operations; distinct by the JSON of the case."
-	var vm []string
+	c.Res.Rule = "files of rows (id, optional, list, dictionary string, optional leaf in an optional group; every value identifies its row; the five columns have different page layouts) written with small pages (PageBufferSize 16..96), 1..4 row groups, data pages v1 and v2; opened with/without SkipPageIndex, sync/async. Histories over {ReadPage | ReadRows(n in 1,3,64,1000) | Reader.Read(one row), SeekToRow(k: 0, page and row-group boundaries +-1, N-1, N, N+3, random), load the offset index, Reset}: a corpus (the repaired defects first), ALL histories of length 4 (quick) / 5 (thorough) over a 9..12 letter alphabet on 22-row files, random histories up to length 40 on 300-row files; run on ColumnChunk.Pages (every column), RowGroup.Rows, NewReader (ReadRows and Read), NewGenericReader (Read), and the column pages (multiPages) and rows of MultiRowGroup over all row groups. Every per-operation output (first row and count of the page/batch, io.EOF) is compared with the extracted model of that layer (page cursor; rowGroupRows over the page layouts of all five columns; multiPages; reader/Reader/GenericReader), a sample also with the position specification, async page histories also with the asyncPages model under model-drawn schedules. A case = (file, open options, reader, history); non-trivial = at least 2 operations; distinct by the JSON of the case."
+	var vm, vmRows, vmReader []string
+	addVmRows := func(cs *c08Case) {
+		if cs.Open.SkipIndex || cs.Open.Async || c08Has(cs.Ops, "g") {
+			return
+		}
+		isRows := cs.Target == "rows" && len(vmRows) < 120
+		isReader := cs.Target == "reader" && len(vmReader) < 120
+		if !isRows && !isReader {
+			return
+		}
+		res, b := c08Exec(cs)
+		if b == nil || res.kind != "" || (isReader && len(b.rgRows) < 2) {
+			return
+		}
+		outs, ok := c08CoqMOuts(res.outs)
+		if !ok {
+			return
+		}
+		if isRows {
+			var cols []string
+			for c := 0; c < c08NumCols; c++ {
+				cols = append(cols, c08CoqNats(b.layout[cs.RG][c]))
+			}
+			vmRows = append(vmRows, fmt.Sprintf("(%s, %s, %s)", core.CoqList(cols), c08CoqROps(cs.Ops, "RRead", "RSeek", "RReset"), outs))
+		} else {
+			var cols []string
+			for c := 0; c < c08NumCols; c++ {
+				var chunks []string
+				for g := range b.layout {
+					chunks = append(chunks, c08CoqNats(b.layout[g][c]))
+				}
+				cols = append(cols, core.CoqList(chunks))
+			}
+			vmReader = append(vmReader, fmt.Sprintf("(%s, %s, %s)", core.CoqList(cols), c08CoqROps(cs.Ops, "XReadRows", "XSeek", "XReset"), outs))
+		}
+	}
 	addVm := func(cs *c08Case) {
+		addVmRows(cs)
 		if cs.Target != "pages" || cs.Open.SkipIndex || len(vm) >= 400 {
 			return
 		}
@@ -1000,15 +1262,37 @@ func runC08(c *core.Ctx) {
 				}
 			}
 		}
-		for _, target := range []string{"rows", "reader", "generic"} {
+		for _, target := range []string{"rows", "reader", "generic", "multirows"} {
 			for _, o := range []c08Open{{}, {Async: true}, {SkipIndex: true}} {
-				for _, h := range [][]string{
+				hs := [][]string{
 					{"r10", "x", "s10", "r3"},
 					{"r3", "s200", "r64", "s109", "r3", "s110", "r1", "s5", "r1000"},
 					{"s300", "r1", "s299", "r3", "s0", "r1"},
 					{"r64", "s64", "r1", "s63", "r1"},
+					// the final batch comes back with io.EOF, then a seek to the row at which it started
+					{"r64", "r64", "s64", "r3"},
+					{"r1000", "s0", "r3"},
+					{"s256", "r64", "s256", "r3", "x", "r1"},
+				}
+				if target == "reader" {
+					hs = append(hs, []string{"g", "r3", "g", "s109", "g", "g", "r2", "s299", "g", "g", "s0", "g"},
+						[]string{"r64", "g", "s64", "g", "x", "g", "r1"})
+				}
+				for _, h := range hs {
+					cs := &c08Case{File: p, Open: o, Target: target, RG: 0, Ops: h}
+					c08Run(c, cs, "corpus")
+					addVm(cs)
+				}
+			}
+		}
+		for col := 0; col < c08NumCols; col++ {
+			for _, o := range []c08Open{{}, {Async: true}, {SkipIndex: true}} {
+				g1 := b.rgRows[0]
+				for _, h := range [][]string{
+					{"r", fmt.Sprintf("s%d", g1-1), "r", "r", "s2", "r", fmt.Sprintf("s%d", g1), "r"},
+					{fmt.Sprintf("s%d", b.total-1), "r", "r", fmt.Sprintf("s%d", g1+1), "r", fmt.Sprintf("s%d", b.total+4), "r", "s0", "r"},
 				} {
-					c08Run(c, &c08Case{File: p, Open: o, Target: target, RG: 0, Ops: h}, "corpus")
+					c08Run(c, &c08Case{File: p, Open: o, Target: "multipages", Col: col, Ops: h}, "corpus")
 				}
 			}
 		}
@@ -1072,7 +1356,7 @@ func runC08(c *core.Ctx) {
 				continue
 			}
 			exhaustive(c08Case{File: p, Open: o, Target: "rows"}, ralpha, length,
-				fmt.Sprintf("exhaustive/rows/v%d/skipindex=%v", v, o.SkipIndex), 0)
+				fmt.Sprintf("exhaustive/rows/v%d/skipindex=%v", v, o.SkipIndex), 97)
 		}
 		p2 := small2(v)
 		b2, err := c08Build(p2)
@@ -1082,12 +1366,32 @@ func runC08(c *core.Ctx) {
 		}
 		g := b2.rgRows[0]
 		falpha := []string{"r1", "r3", "r64", "s0", fmt.Sprintf("s%d", g-1), fmt.Sprintf("s%d", g), fmt.Sprintf("s%d", g+1), fmt.Sprintf("s%d", b2.total-1), fmt.Sprintf("s%d", b2.total), "x"}
-		for _, target := range []string{"reader", "generic"} {
-			if c.Quick() && v == 1 && target == "generic" {
+		for _, target := range []string{"reader", "generic", "multirows"} {
+			if c.Quick() && v == 1 && target != "reader" {
 				continue
 			}
-			exhaustive(c08Case{File: p2, Target: target}, falpha, length,
-				fmt.Sprintf("exhaustive/%s/v%d", target, v), 0)
+			alpha := falpha
+			if target == "reader" {
+				alpha = append(append([]string(nil), falpha...), "g")
+			}
+			exhaustive(c08Case{File: p2, Target: target}, alpha, length,
+				fmt.Sprintf("exhaustive/%s/v%d", target, v), 97)
+		}
+		// multiPages: the pages of a column over both row groups
+		for _, col := range []int{0, 2, 4} {
+			if c.Quick() && (v == 1 || col == 0) {
+				continue
+			}
+			palpha := []string{"r"}
+			seen := map[int64]bool{}
+			for _, k := range []int64{0, g - 1, g, g + 1, b2.layout[0][col][0], g + b2.layout[1][col][0], b2.total - 1, b2.total, b2.total + 3} {
+				if !seen[k] {
+					seen[k] = true
+					palpha = append(palpha, fmt.Sprintf("s%d", k))
+				}
+			}
+			exhaustive(c08Case{File: p2, Target: "multipages", Col: col}, palpha, length,
+				fmt.Sprintf("exhaustive/multipages/v%d", v), 0)
 		}
 	}
 	c.Res.Exhaustive = true
@@ -1107,7 +1411,10 @@ func runC08(c *core.Ctx) {
 			return
 		}
 		cs := &c08Case{File: p, Open: c08Open{SkipIndex: c.Rng.Intn(3) == 0, Async: c.Rng.Intn(3) == 0}}
-		cs.Target = []string{"pages", "pages", "rows", "reader", "generic"}[c.Rng.Intn(5)]
+		cs.Target = []string{"pages", "pages", "rows", "reader", "generic", "multipages", "multirows"}[c.Rng.Intn(7)]
+		if len(b.rgRows) < 2 && (cs.Target == "multipages" || cs.Target == "multirows") {
+			cs.Target = "rows"
+		}
 		cs.RG = c.Rng.Intn(len(b.rgRows))
 		cs.Col = c.Rng.Intn(c08NumCols)
 		N := b.total
@@ -1116,7 +1423,10 @@ func runC08(c *core.Ctx) {
 			N = b.rgRows[cs.RG]
 			points = c08SeekPoints(b.layout[cs.RG][cs.Col], N, false)
 		} else {
-			cs.RG, cs.Col = 0, 0
+			cs.RG = 0
+			if cs.Target != "multipages" {
+				cs.Col = 0
+			}
 			for g := range b.rgRows {
 				for _, k := range c08SeekPoints(b.layout[g][c.Rng.Intn(c08NumCols)], b.rgRows[g], false) {
 					points = append(points, b.rgOff[g]+k)
@@ -1128,8 +1438,10 @@ func runC08(c *core.Ctx) {
 			x := c.Rng.Intn(100)
 			switch {
 			case x < 45:
-				if cs.Target == "pages" {
+				if cs.Target == "pages" || cs.Target == "multipages" {
 					cs.Ops = append(cs.Ops, "r")
+				} else if cs.Target == "reader" && c.Rng.Intn(4) == 0 {
+					cs.Ops = append(cs.Ops, "g")
 				} else {
 					cs.Ops = append(cs.Ops, fmt.Sprintf("r%d", []int{1, 3, 64, 1000}[c.Rng.Intn(4)]))
 				}
@@ -1140,7 +1452,7 @@ func runC08(c *core.Ctx) {
 			case x < 96:
 				if cs.Target == "pages" && cs.Open.SkipIndex {
 					cs.Ops = append(cs.Ops, "l")
-				} else if cs.Target != "pages" {
+				} else if cs.Target != "pages" && cs.Target != "multipages" {
 					cs.Ops = append(cs.Ops, "x")
 				} else {
 					cs.Ops = append(cs.Ops, "r")
@@ -1153,7 +1465,7 @@ func runC08(c *core.Ctx) {
 		if i < 2 {
 			c.Sample(cs)
 		}
-		if i%9 == 0 {
+		if i%3 == 0 {
 			addVm(cs)
 		}
 	}
@@ -1163,15 +1475,23 @@ func runC08(c *core.Ctx) {
 		}
 	}
 	c.Note("row-range views (row_range.go) have no exported constructor; they are reached only through the merge planner and are not exercised here")
-	c.Note("async read mode: histories are run under the Go scheduler as it comes; schedules are explored, not enumerated")
+	c.Note("async read mode: histories are run under the Go scheduler as it comes; the asyncPages model is run under schedules drawn by the oracle (2 per async page history) and must return the same outputs")
 
-	c.Vm("From Coq Require Import List Arith Bool.\nFrom PQ Require Import Cursor.Model.\nImport ListNotations.")
+	c.Vm("From Coq Require Import List Arith Bool.\nFrom PQ Require Import Cursor.Model Cursor.Multi.\nImport ListNotations.")
 	c.Vm("Definition out_eqb (a b : out) : bool :=\n  match a, b with\n  | Rows f c, Rows f' c' => (f =? f') && (c =? c')\n  | EOF, EOF | SeekOk, SeekOk | OutOfRange, OutOfRange | Done, Done => true\n  | _, _ => false\n  end.")
 	c.Vm("Fixpoint outs_eqb (a b : list out) : bool :=\n  match a, b with\n  | [], [] => true\n  | x :: a', y :: b' => out_eqb x y && outs_eqb a' b'\n  | _, _ => false\n  end.")
 	c.Vm("Definition cases : list (list nat * list op * list out) := [\n  " + strings.Join(vm, ";\n  ") + "].")
 	c.Vm("Definition mismatches := filter (fun '(pg, ops, outs) => negb (outs_eqb (run_indexed pg ops) outs)) cases.")
-	c.Vm("Definition M := Eval vm_compute in (length cases, mismatches).\nPrint M.")
-	c.Res.VmCases = len(vm)
+	c.Vm("Definition widen (ncols : nat) (ids : list nat) : list (list nat) := map (fun i => repeat i ncols) ids.")
+	c.Vm("Definition rows_eqb (a b : list (list nat)) : bool := if list_eq_dec (list_eq_dec Nat.eq_dec) a b then true else false.")
+	c.Vm("Definition mout_eqb (a b : mout) : bool :=\n  match a, b with\n  | MRows r e, MRows r' e' => rows_eqb r r' && Bool.eqb e e'\n  | MSeekOk, MSeekOk | MOutOfRange, MOutOfRange | MDone, MDone => true\n  | _, _ => false\n  end.")
+	c.Vm("Fixpoint mouts_eqb (a b : list mout) : bool :=\n  match a, b with\n  | [], [] => true\n  | x :: a', y :: b' => mout_eqb x y && mouts_eqb a' b'\n  | _, _ => false\n  end.")
+	c.Vm("Definition rcases : list (list chunk * list rop * list mout) := [\n  " + strings.Join(vmRows, ";\n  ") + "].")
+	c.Vm("Definition xcases : list (list (list chunk) * list xop * list mout) := [\n  " + strings.Join(vmReader, ";\n  ") + "].")
+	c.Vm("Definition rmismatches := filter (fun '(cols, ops, outs) => negb (mouts_eqb (run_mrows_indexed cols ops) outs)) rcases.")
+	c.Vm("Definition xmismatches := filter (fun '(cols, ops, outs) => negb (mouts_eqb (run_reader_indexed cols ops) outs)) xcases.")
+	c.Vm("Definition M := Eval vm_compute in (length cases + length rcases + length xcases, repeat tt (length mismatches + length rmismatches + length xmismatches)).\nPrint M.")
+	c.Res.VmCases = len(vm) + len(vmRows) + len(vmReader)
 }
 
 func replayC08(c *core.Ctx, raw json.RawMessage) {
